@@ -6,6 +6,9 @@ import c11
 def run(ctx, prefixes):
     q = ctx.tier == "quick"
     ctx.mc("H2Relay.tla", "MC_H2Relay_Q.cfg" if q else "MC_H2Relay_FC.cfg", timeout=3000)
+    ok, _, _, _ = ctx.mc("H2Relay.tla", "MC_H2Relay_BugZeroCostHeld.cfg", expect_ok=False)
+    if ok:
+        raise vlib.Infra("H2Relay mutant BugZeroCostHeld not detected by the model")
     ctx.mc("H2Hpack.tla", "MC_H2Hpack.cfg")
     binp = ctx.build()
     n = 60 if q else 1500
@@ -32,6 +35,10 @@ def run(ctx, prefixes):
         {"h": [act("headers_open", 1, n=1, pad=1), act("cont", 1), act("headers_open", 3, n=1, pad=0), act("cont", 3), act("data", 1, 100, es=True)]},
         {"h": [act("headers", 1, pad=1), act("prio", 3), act("push", 1, n=2), act("ping", 0, n=1), act("headers_open", 3, n=1, pad=1, es=True), act("cont", 3),
                act("rst", 1, n=2), act("ping", 0, n=2), act("goaway")]},
+        # a SETTINGS change makes the window of a stream negative; frames that are not flow-controlled still go through
+        {"h": [act("headers", 1), act("data", 1, 40000), act("ctl", 0, t="SI", v=100), act("rst", 1, n=8)]},
+        {"h": [act("headers", 1), act("data", 1, 40000), act("headers", 3), act("data", 3, 20000), act("ctl", 0, t="SI", v=1),
+               act("headers", 1, es=True), act("data", 3, 0, es=True)]},
     ]
     trace = os.path.join(ctx.work, "h2.ndjson")
     out = ctx.run_vh(binp, ["h2", "--arg", "trace=" + trace], cases=cases, timeout=3000)
